@@ -207,6 +207,25 @@ func runC19(r *vk.Run) {
 		}
 		f := genStatelessFilter(rng, ds)
 		g := genStatelessFilter(rng, ds)
+		if rng.Chance(1, 5) {
+			// the same regular-expression text in both kinds of position: a line filter is unanchored,
+			// a label matcher is anchored, whichever of them the query mentions first
+			src := vk.Pick(rng, []string{"web", "error", "a", "p1", "al", "GET", "r1", "prod", "info|warn", "[0-9]+", "e"})
+			if rng.Bool() {
+				src = regexp.QuoteMeta(genNeedle(rng, ds))
+				if _, err := regexp.Compile(src); err != nil || src == "" {
+					src = "r1"
+				}
+			}
+			re := quoteLogQL(src)
+			l := vk.Pick(rng, c19Labels)
+			f = filt{Text: "|~ " + re, Neg: "!~ " + re, Kind: "line-regex"}
+			g = filt{Text: "| " + l + "=~" + re, Neg: "| " + l + "!~" + re, Kind: "label-regex"}
+			if rng.Bool() {
+				f, g = g, f
+			}
+			c.Count("same_regex_text_in_both_positions", 1)
+		}
 		det := func(extra map[string]any) map[string]any {
 			m := map[string]any{"q": qt, "f": f, "g": g, "records": ds.Recs}
 			for k, v := range extra {
